@@ -244,13 +244,17 @@ def gen_alias(quick, seed):
         'r = [0, 0]\nfor i = 0; i < 2; i = i + 1 {\nl = [0, []]\nprobe(l)\nl[0] = i + 1\nr[i] = l\n}\nprobe(r)',
         'for v in [1, 2] {\nm = {"n": 0, "e": {}}\nprobe(m)\nm["n"] = v\nm["e"]["x"] = v\n}\nprobe({}, {"n": 0, "e": {}})',
         'a = {}\nb = a\nc = {}\nb["x"] = 1\nc["y"] = 2\nprobe(a, b, c)',
+        # the same call site / literal evaluated again (next loop round) after its earlier result was changed in place
+        'for i = 0; i < 3; i = i + 1 {\na = load_json("[1,\\"a\\",null]")\nprobe(a)\na[0] = 99\na[2] = i\n}\nprobe(a)',
+        'keep = [0, 0]\nfor i = 0; i < 2; i = i + 1 {\nm = load_json("{\\"a\\":{\\"b\\":[true]}}")\nprobe(m)\nm["a"]["b"][0] = i\nm["n"] = i\nkeep[i] = m\n}\nprobe(keep)',
+        'for v in [1, 2] {\nl = [v, [0]]\nprobe(l)\nl[1][0] = v\n}\nfor v in [1, 2] {\nx = load_json(fj)\nprobe(x)\nx[0] = v\n}',
         # an empty literal is an empty container like any other: same snapshot text, equal to and contained like an empty slice result
         'one = [1]\nprobe([] == one[1:], one[1:] == [], [] in [one[1:]], one[1:] in [[]], [] != one[1:])\nadd_key(s1, [])\nadd_key(s2, [[], 1])\n'
         'add_key(s3, {"k": []})\nadd_key(s4, one[1:])\nadd_key(s5, {})\nprobe(len([]), [] == [], {} == {})',
         'e = []\nm = {"k": e, "l": [e]}\nadd_key(s1, m)\nset_tag(t1, e)\nprobe(m, e == m["k"], e in m["l"])',
     ]
     for i, t in enumerate(fixed):
-        out.append(ps("alias:%d" % i, t, tag="aliasing"))
+        out.append(ps("alias:%d" % i, t, pt={"meas": "m", "tags": {}, "fields": {"fj": '[1,"a",null]'}}, tag="aliasing"))
     # random alias / mutation / snapshot programs
     for k in range(150 if quick else 1500):
         names = ["a", "b", "c"]
@@ -433,6 +437,12 @@ probe(i, j)"""
         locs = ["fs", "l2", "fi"][:nloc]
         body = "probe(%s)\n" % ", ".join(["v"] + locs) + "".join("%s = v\n" % l for l in locs)
         scope.append(("v = 0\n" if outer else "") + "for v in %s {\n%s}\nprobe(%s)" % (it, body, ", ".join(["v"] + locs)))
+    # an assignment updates the nearest variable of that name whatever the value is (nil, zero, empty): the variable stays a variable
+    for val in ["nil", "0", '""', "[]", "{}", "false", "nosuch", "q.r"]:
+        scope.append("x = 1\nif true {\nx = %s\nprobe(x)\nx = 2\n}\nprobe(x)" % val)
+        scope.append("fi = %s\nprobe(fi)\nif true { probe(fi)\nfi = 3 }\nprobe(fi)" % val)
+        scope.append("fs = \"seen\"\nfs = %s\nprobe(fs)\nfs += \"x\"\nprobe(fs)" % val)
+        scope.append("v = 0\nfor v in [1, %s, 3] { }\nprobe(v)\nfor i = 0; i < 2; i = i + 1 { v = %s\nv = i }\nprobe(v)" % (val if val != "q.r" else "nil", val))
     for i, t in enumerate(scope):
         out.append(ps("scope:%d" % i, t, pt=STD_PT, maporders="{" in t, tag="scoping"))
     # random nestings
